@@ -12,12 +12,12 @@ META = {
  "harnesses": {
   "h_pure_gfa1": {"kind": "G",
     "functions": ["every query of the catalogue Q1 (string conversion, field/tag reads, validate*, clone, ==, diff, CIGAR complement/length, link complement/is_*/is_compatible*, _search_link/select/finders, neighbourhood properties, other/other_end, is_cut_*, connected_components, linear_path(s), captured_path, to_gfa2_s of lines, str without sequence)"],
-    "bounds": "3 GFA1 states (asymmetric I/D CIGARs on links, containments, paths along/against links incl. a circular one, header with repeated tags, vlevel 1 and 3) x every query q1 of the catalogue called twice x follow-up query q2 (quick: 3 observer queries on the richest state, str(gfa) on the other two; thorough: every query on every state): written form and full observation unchanged, repeated answers equal",
-    "timeout": {"quick": 400, "thorough": 1200}, "parts": {"quick": 16, "thorough": 16}},
+    "bounds": "3 GFA1 states (asymmetric I/D CIGARs on links, containments, paths along/against links incl. a circular one, header with repeated tags, vlevel 1 and 3) x every query q1 of the catalogue called twice x follow-up query q2 (quick: 3 observer queries on the richest state, str(gfa) on the other two; thorough: every query on the richest state, a third of the (q1, q2) pairs on the other two): written form and full observation unchanged, repeated answers equal",
+    "timeout": {"quick": 400, "thorough": 900}, "parts": {"quick": 16, "thorough": 16}},
   "h_pure_gfa2": {"kind": "G",
     "functions": ["every query of the catalogue Q2 (as Q1 plus E/G/F/O/U accessors, captured_path/segments/edges, induced_set/segments/edges, validate_positions, to_gfa1_s of lines, overlap/pos of E lines, custom records)"],
     "bounds": "3 GFA2 states (E dovetail/containment/internal with asymmetric CIGARs and a trace, G, F, nested O/U, custom record, vlevel 1 and 3) x q1 twice x q2 as above",
-    "timeout": {"quick": 400, "thorough": 1200}, "parts": {"quick": 16, "thorough": 16}},
+    "timeout": {"quick": 400, "thorough": 900}, "parts": {"quick": 16, "thorough": 16}},
  },
  "scripts": {"s_catalogue_covers_api": {"entry": "s_catalogue_covers_api", "timeout": 120}},
 }
@@ -235,7 +235,7 @@ NO2 = len(Q2) if THOROUGH else len(OBSERVERS)
 def h_pure_gfa1(si: int, q1: int, q2: int) -> bool:
   """
   pre: 0 <= si < 3 and 0 <= q1 < NQ1 and 0 <= q2 < NO1
-  pre: THOROUGH or si == 0 or q2 == 0
+  pre: (THOROUGH and (q1 + q2) % 3 == 0) or si == 0 or q2 == 0
   pre: (q1 + q2) % NPART == PART
   post: _ == True
   """
@@ -245,7 +245,7 @@ def h_pure_gfa1(si: int, q1: int, q2: int) -> bool:
 def h_pure_gfa2(si: int, q1: int, q2: int) -> bool:
   """
   pre: 0 <= si < 3 and 0 <= q1 < NQ2 and 0 <= q2 < NO2
-  pre: THOROUGH or si == 0 or q2 == 0
+  pre: (THOROUGH and (q1 + q2) % 3 == 0) or si == 0 or q2 == 0
   pre: (q1 + q2) % NPART == PART
   post: _ == True
   """
